@@ -7,6 +7,7 @@ write(). Reference: ConfigModel (a dict) gives the effective settings; the expec
 the real pipeline below the merging layer with nothing defaulted.
 """
 import abc
+import datetime
 import errno
 import re
 import sys
@@ -56,6 +57,10 @@ class FalsyStream(list):
 
     def text(self):
         return ''.join(self)
+
+
+class Tag(str):
+    """a str subclass: equal to and hashing like the plain str with the same characters"""
 
 
 class Reg:
@@ -221,7 +226,12 @@ def setup():
         [Reentrant([1, 2, 3]), {'k': Reentrant({'b': 1, 'a': [2, 3]})}],
         {'old': OldStyle([1, 2, {'z': 1, 'a': 2}]), 'more': [OldStyle('x')] * 2},
     ]
+    long_text = 'lorem ipsum dolor sit amet consectetur ' * 16
     VALUES.extend([
+        long_text,
+        Tag(long_text),
+        [Tag('short'), 'short'],
+        {'timeout': datetime.timedelta(hours=2, minutes=30), 'ttl': [datetime.timedelta(days=800, seconds=3)]},
         {'ids': list(range(60)), 'name': 'x'},
         [HMemoStr(), {'again': HMemoStr()}],
         Invoice(2, BoxU(Money(10, 'EUR'))),
@@ -245,7 +255,7 @@ def generate(rng, idx, tier):
             ops.append(['pp_new', {s_: rng.choice(DOM[s_]) for s_ in KEYS if rng.random() < p_explicit}])
             continue
         if k == 'pp_use':
-            ops.append(['pp_use', rng.randrange(4), rng.randrange(22), rng.choice(['pformat', 'pprint'])])
+            ops.append(['pp_use', rng.randrange(4), rng.randrange(26), rng.choice(['pformat', 'pprint'])])
             continue
         if k == 'set':
             sub = {s: rng.choice(DOM[s]) for s in SETTABLE if rng.random() < p_set}
@@ -256,7 +266,7 @@ def generate(rng, idx, tier):
             ops.append(['get'])
         else:
             entry = rng.choice(ENTRIES)
-            v = rng.randrange(len(VALUES) if VALUES else 22)
+            v = rng.randrange(len(VALUES) if VALUES else 26)
             explicit = {s: rng.choice(DOM[s]) for s in KEYS if rng.random() < p_explicit}
             end = rng.choice(ENDS)
             if k == 'faulty':
